@@ -4,5 +4,6 @@ CONSTANTS
   Scenarios = {}
 INVARIANTS TypeOK CanonDenotesValue CanonFixedPoint CanonIsCanonical AltIsCanonical
            WriterStatusSound PresentationDenotesValue CanonUnique CanonicalIffFixed
-           KindsDoNotCross QuotedIsNoNumber Emit
+           KindsDoNotCross QuotedIsNoNumber
+           KeyOrderIsByteOrder UnitOrderDiffersExactly CanonKeysInByteOrder Emit
 CHECK_DEADLOCK FALSE
